@@ -272,6 +272,11 @@ def pstr_scopes(tier):
             q.append(S("pstr", w=w, size=w - 1 + size if size else max(w - 1, 0), chars=2))
         q.append(S("pstr", w=w, size=w + 4, chars=3, bytes=0))
         q.append(S("pstr", w=w, size=w + 19, chars=1, bytes=0, long=1))
+    # sources longer than the prefix range (256+k / 65536+k bytes) copied into small payloads, a character across the cut
+    for pay in (2, 4, 5):
+        q.append(S("pstr", w=1, size=1 + pay, chars=1, bytes=0, wrap=1))
+        # (65536-byte texts: oracle-only, the Lean driver's string handling is too slow for them)
+        q.append(S("pstr", w=2, size=2 + pay, chars=1, bytes=0, wrap=1, nodriver=1))
     # prefix maximum: 254/255/256/257 payload bytes behind a u8 prefix, 65534..65537 behind u16
     for pay in (254, 255, 256, 257):
         q.append(S("pstr", w=1, size=1 + pay, chars=1, bytes=0))
@@ -291,6 +296,8 @@ def podstr_scopes(tier):
     q += [S("podstr", n=5, chars=2, bytes=0), S("podstr", n=7, chars=3, bytes=0), S("podstr", n=10, chars=3, bytes=0)]
     # capacities around and beyond 16 with texts of every length up to the capacity and a little more
     q += [S("podstr", n=n, chars=1, bytes=0, long=1) for n in (10, 16, 17, 20, 33)]
+    # texts ending in low control characters (the bytes just above the NUL terminator), capacities around 8 and 16
+    q += [S("podstr", n=n, chars=1, bytes=0, ctl=1) for n in (7, 8, 9, 15, 16, 17, 24)]
     if tier == "thorough":
         q += [S("podstr", n=n, chars=4, bytes=0, timeout=3000) for n in (3, 4, 5, 7, 10)]
     return q
@@ -416,7 +423,11 @@ PROPERTIES = {
         "assumptions": COMMON_ASSUME + ["addresses are not part of the model: relocation independence is checked on the implementation (every transition is executed twice, at two addresses), not proved"],
     },
     "C05": {
-        "scopes": lambda tier: aset_scopes(tier) + tree_scopes(tier, logs=False, rnd=False)[:6] + hset_scopes(tier, rnd=False)[:3] + pstr_scopes("quick") + podstr_scopes("quick") + pod_scopes("quick"),
+        # `missized=1`: from every fifth state the buffer is also cut short by one / two records (the header still claims
+        # them) and every operation is run on it between guards - it may panic, it must not touch memory outside
+        "scopes": lambda tier: [dict(x, args=dict(x["args"], missized="1")) for x in
+                                aset_scopes(tier) + tree_scopes(tier, logs=False, rnd=False)[:8] + tree_scopes(tier, logs=False)[-3:] + hset_scopes(tier, rnd=False)[:3] + hset_scopes(tier)[-2:]]
+                               + pstr_scopes("quick") + podstr_scopes("quick") + pod_scopes("quick"),
         "relevant": rel_none,
         "assumptions": COMMON_ASSUME + ["memory safety of safe Rust and of bytemuck's checked casts is trusted; guard regions and Miri support the search, they are not the proof"],
         "rule": "implementation transitions, each executed twice between 64-byte guard regions of two different patterns at two different addresses; non-trivial = distinct byte states with >= 2 members and a free slot",
